@@ -325,7 +325,8 @@ Section Driver.
   | SPredictBatch (xs : list tensor)
   (* direct writes of the public maps `Network.loopbacks` / `Network.connect` between calls *)
   | SSetLoops (l : list (nat * (nat * nat * bool)))
-  | SSetConnect (l : list (nat * nat)).
+  | SSetConnect (l : list (nat * nat))
+  | SSetActivation (i : nat) (a : activation).
 
   Definition psop : parser sop :=
     let* k := tok in
@@ -340,6 +341,7 @@ Section Driver.
     | 13 => let* l := plist (let* o := pnat in let* i := pnat in let* k := pnat in let* s := pbool in
                              pret (o, (i, k, s))) in pret (SSetLoops l)
     | 14 => let* l := plist ppair in pret (SSetConnect l)
+    | 15 => let* i := pnat in let* a := pact in pret (SSetActivation i a)
     | _ => pfail
     end.
 
@@ -371,6 +373,7 @@ Section Driver.
         do ys <- predict_batch seq_pmap n xs; do o <- run_script n rest; Ok (elist etensor ys ++ o)
     | SSetLoops l :: rest => run_script (set_loopbacks n l) rest
     | SSetConnect l :: rest => run_script (set_connect n l) rest
+    | SSetActivation i a :: rest => do n' <- set_activation n i a; run_script n' rest
     end.
 
   Definition run_net_cmd (n : network NF) : parser (list Z) :=
